@@ -55,7 +55,12 @@ type Case struct {
 	Tree   bool        `json:"tree,omitempty"`   // check C06 invariants on every installed version
 	Files  bool        `json:"files,omitempty"`  // check C07 file-set invariants at idle points
 	Poison bool        `json:"poison,omitempty"` // scribble over argument and result buffers (C20)
-	Note   string      `json:"note,omitempty"`
+	// FilterCycle, when set, overrides the filter policy: the i-th Open uses
+	// FilterCycle[i mod len] as Options.Filter, with the bloom and hash-set
+	// policies as AltFilters so that tables written under another policy stay
+	// readable (C16).
+	FilterCycle []string `json:"filtercycle,omitempty"`
+	Note        string   `json:"note,omitempty"`
 }
 
 // Save writes the case as JSON.
